@@ -883,6 +883,20 @@ func (f *Frame) evalCall(e *spec.Call, st, old *State) TV {
 		a := f.eval(e.Args[0], st, old)
 		live := x.heapGet(st, "$live", smt.Array(RefS, smt.Bool))
 		return TV{B.Select(live, x.scalar(a.V, a.T)), types.Typ[types.Bool]}
+	case "captures":
+		// captures(name): only meaningful in the guard of a closure clause
+		if len(e.Args) != 1 {
+			specErr("captures(name)")
+		}
+		id, ok := e.Args[0].(*spec.Ident)
+		if !ok {
+			specErr("captures(name): a plain identifier")
+		}
+		if x.capNames == nil {
+			specErr("captures() outside the guard of a closure clause")
+		}
+		_, has := x.capNames["captures$"+id.Name]
+		return TV{B.BoolC(has), types.Typ[types.Bool]}
 	case "wascalled", "lastcall":
 		// ghost call history: wascalled("callee") is the path condition under which the function
 		// under verification made its (last) static call of callee; lastcall("callee", i) its i-th result
